@@ -63,7 +63,13 @@ pub struct World {
 
 impl World {
     pub fn cfg(&self) -> SimConfig {
-        SimConfig::new(self.genesis_period, self.heartbeat)
+        let mut c = SimConfig::new(self.genesis_period, self.heartbeat);
+        if self.genesis_period < 50 {
+            // short-window worlds also drop transaction data early, so that reorganisations a
+            // few blocks deep have to reload blocks from disk
+            c.consensus.prune_after_blocks = 2;
+        }
+        c
     }
 
     pub async fn new(genesis_period: u64, heartbeat: u64, n_slips: usize) -> World {
@@ -166,7 +172,22 @@ impl World {
         };
         let ts = parent.timestamp + gap;
         // one self-payment from the block's dedicated genesis slip; fee covers the routing work
-        let input = self.genesis_slip(slip_no);
+        // with a short retention window the dedicated genesis slips are rebroadcast before they
+        // are used: there every block spends the change output of its parent's payment instead
+        let mut input = self.genesis_slip(slip_no);
+        if self.genesis_period < 50 {
+            if let Some(p) = path.last() {
+                let change = p
+                    .block
+                    .transactions
+                    .iter()
+                    .filter(|t| t.transaction_type == saito_core::core::consensus::transaction::TransactionType::Normal)
+                    .filter_map(|t| t.to.get(1))
+                    .next()
+                    .expect("parent has a payment");
+                input = change.clone();
+            }
+        }
         let needed = saito_core::core::consensus::burnfee::BurnFee::return_routing_work_needed_to_produce_block_in_nolan(
             parent.burnfee, ts, parent.timestamp, self.heartbeat);
         let fee: Currency = needed;
